@@ -60,6 +60,7 @@ thread_local! {
     pub static NEXT_ACTOR: RefCell<usize> = const { RefCell::new(0) };
     pub static NEXT_BIRTH: RefCell<usize> = const { RefCell::new(0) };
     pub static NEXT_MSG: RefCell<usize> = const { RefCell::new(100000) };
+    pub static NEXT_TIMER: RefCell<usize> = const { RefCell::new(0) };
     /// per actor: (open callback depth, last closed callback was `stopped`)
     pub static CBSTATE: RefCell<HashMap<usize, (u32, bool)>> = RefCell::new(HashMap::new());
     /// behaviour to give to actors created through Default outside a recreate (services)
@@ -71,6 +72,7 @@ pub fn reset_ids() {
     NEXT_ACTOR.with(|b| *b.borrow_mut() = 0);
     NEXT_BIRTH.with(|b| *b.borrow_mut() = 0);
     NEXT_MSG.with(|b| *b.borrow_mut() = 100000);
+    NEXT_TIMER.with(|b| *b.borrow_mut() = 0);
     CBSTATE.with(|b| b.borrow_mut().clear());
     DEFAULT_BEHAV.with(|b| *b.borrow_mut() = Behaviour::default());
 }
@@ -90,6 +92,17 @@ fn fresh_birth() -> usize {
         *n += 1;
         v
     })
+}
+/// timer ids are allocated when a timer is registered (scripts may run several times)
+pub fn fresh_timer(a: usize) -> usize {
+    let t = NEXT_TIMER.with(|n| {
+        let mut n = n.borrow_mut();
+        let v = *n;
+        *n += 1;
+        v
+    });
+    cur().reg_timer.set(Some((a, t)));
+    t
 }
 /// message ids for timer-produced messages
 pub fn fresh_msg() -> usize {
@@ -295,6 +308,7 @@ async fn run_script<const K: usize>(node: &mut Node<K>, ctx: &mut Context<Node<K
     for act in script {
         match act {
             Act::Work(d) => {
+                emit(format!("work {} {}", a, d));
                 let f = cur().sleep(*d);
                 f.await;
             }
@@ -311,12 +325,13 @@ async fn run_script<const K: usize>(node: &mut Node<K>, ctx: &mut Context<Node<K
                 panic!("scripted panic in actor {}", a);
             }
             Act::Fail => return Err(()),
-            Act::Interval { t, d } => {
+            Act::Interval { d, .. } => {
+                let t = &fresh_timer(a);
                 ctx.interval(Tick { t: *t }, Duration::from_millis(*d));
                 emit(format!("ctx {} interval {} {}", a, t, d));
             }
-            Act::IntervalWith { t, d } => {
-                let t = *t;
+            Act::IntervalWith { d, .. } => {
+                let t = fresh_timer(a);
                 ctx.interval_with(
                     move || {
                         let m = fresh_msg();
@@ -327,8 +342,8 @@ async fn run_script<const K: usize>(node: &mut Node<K>, ctx: &mut Context<Node<K
                 );
                 emit(format!("ctx {} interval_with {} {}", a, t, d));
             }
-            Act::DelayedSend { t, d } => {
-                let t = *t;
+            Act::DelayedSend { d, .. } => {
+                let t = fresh_timer(a);
                 ctx.delayed_send(
                     move || {
                         let m = fresh_msg();
@@ -339,8 +354,8 @@ async fn run_script<const K: usize>(node: &mut Node<K>, ctx: &mut Context<Node<K
                 );
                 emit(format!("ctx {} delayed_send {} {}", a, t, d));
             }
-            Act::DelayedExec { t, d } => {
-                let t = *t;
+            Act::DelayedExec { d, .. } => {
+                let t = fresh_timer(a);
                 ctx.delayed_exec(
                     async move {
                         emit(format!("fire {} {} -", a, t));
